@@ -99,6 +99,7 @@ c.for_props('C01', 'C02', 'C07', 'C14')
 c.ghost_init = init_vt
 c.requires('state-constants', lambda c: And(state_consts_facts()))
 c.requires('job-and-window', lambda c: And(isa['AbstractJob'](c.a.job), isa['Window'](c.a.window)))
+c.requires('job-not-running', lambda c: Not(c.pre.f('_running', c.a.job)))
 c.modifies('$alive', '_state', '_exception', '_result', '$cancel_req', '$wjob', '$twin', '$sd_of', '$shut',
            '$created_vt', '_job', '_task')
 
@@ -371,7 +372,14 @@ def sched_rely(c):
     a.g['$vt'] = fresh('vt', L.R)
     m = q()
     out = task_rely(b, a) + clock_rely(b, a)
-    out.append(ForAll([m], Implies(b.f('_running', m), a.f('_running', m)), patterns=[a.f('_running', m)]))
+    S = c.a.self
+    mine = lambda m_: member(b, S, m_)
+    # R2: for the direct members of S (the only jobs whose flag this activation reads)
+    out.append(ForAll([m], Implies(And(mine(m), b.f('_running', m)), a.f('_running', m)), patterns=[a.f('_running', m)]))
+    # R2b: `_running` of a job is written only by the `wrapped` coroutine its task runs: a member without a task
+    # keeps its flag across a suspension
+    out.append(ForAll([m], Implies(And(mine(m), b.f('_task', m) == NONE), a.f('_running', m) == b.f('_running', m)),
+                      patterns=[a.f('_running', m)]))
     return out
 
 
